@@ -22,6 +22,7 @@ RULE = ("Rule-guided valid trees (rooted at eml / dataset / project / dataTable 
         "targets and other nodes unchanged, no references left, registry cleaned, validity preserved, copies independent; "
         "on a fault ValueError and tree + registry identical to before.  Non-trivial: >= 2 references with one in an "
         "element that has further children, or a fault placed after a resolvable reference.")
+RULE += ('  A third of the references nodes (and some targets) carry a system attribute; valid trees are dressed in prefixes / extras / tails in a third of the cases.')
 ASSUMPTIONS = [
     "referenced elements hold no references (quantifier); every references value names exactly one id on the success path",
     "validate.tree decides 'still validates' (C01-C05)",
